@@ -6,7 +6,7 @@
    other live entry of the database (st.refx, target liveness looked up by the driver). *)
 EXTENDS KRefint, KDir, Json, IOUtils
 Rec == ndJsonDeserialize(IOEnv.TRACE)
-VARIABLE l
+VARIABLES l, seen
 
 Starts(r) == r.a = "reset" \/ ("first" \in DOMAIN r /\ r.first)
 
@@ -17,16 +17,28 @@ DanglingObs(st) ==
       Lv(st, v) # "live"}
   \cup {<<st.refx[i].h, st.refx[i].a, st.refx[i].t>> : i \in {j \in DOMAIN st.refx : st.refx[j].tl # "live"}}
 LineL1(r) == DanglingObs(r.st) = {}
-\* new dangling references of this line, classified (finding signatures)
-NewDangling(r, pst) == IF Starts(r) THEN DanglingObs(r.st) ELSE DanglingObs(r.st) \ DanglingObs(pst)
+\* references stored by ANY projected holder (whatever its liveness) whose target is not live: a dangling
+\* reference that was reported once stays "known" only while it is still stored like that
+Latent(st) ==
+  {<<x, a, v>> \in UNION {UNION {{<<x, a, v>> : v \in Refs(st, x, a)} : a \in DOMAIN st.e[x].refs} : x \in Ids(st)} :
+      Lv(st, v) # "live"}
+\* new dangling references of this line (not reported earlier in this history), classified
+NewDangling(r) == DanglingObs(r.st) \ (IF Starts(r) THEN {} ELSE seen)
 IsDynLeak(st, t) == /\ t[2] = "dynmember" /\ t[1] \in Ids(st) /\ st.e[t[1]].k = "dyn"
                     /\ Lv(st, t[3]) \in {"recycled", "tombstone"}
-\* memberof / directmemberof naming a dynamic group are derived from dynmember: consequences of the same leak
+\* the operation added >= 2 new targets to this attribute of this holder, at least one live one among them
+IsMixed(r, pst, t) ==
+  LET x == t[1]  a == t[2]
+      old == IF ~Starts(r) /\ x \in Ids(pst) THEN Refs(pst, x, a) ELSE {}
+      new == Refs(r.st, x, a) \ old
+  IN  /\ t[3] \in new /\ r.res = "ok" /\ Lv(r.st, t[3]) # "absent"
+      /\ \E w \in new : Lv(r.st, w) = "live"
 Sig(r, pst) ==
-  LET N == NewDangling(r, pst) IN
+  LET N == NewDangling(r) IN
   IF N = {} THEN "persist"
   ELSE IF \A t \in N : IsDynLeak(r.st, t) THEN "dangling dynmember->nonlive"
-  ELSE LET t == CHOOSE u \in N : ~IsDynLeak(r.st, u)
+  ELSE IF \A t \in N : IsDynLeak(r.st, t) \/ IsMixed(r, pst, t) THEN "dangling mixed-new-targets"
+  ELSE LET t == CHOOSE u \in N : ~IsDynLeak(r.st, u) /\ ~IsMixed(r, pst, u)
        IN  "dangling attr=" \o t[2] \o " target=" \o Lv(r.st, t[3])
 
 \* ------------------------------------------ L2 on a line ------------------------------------------
@@ -74,8 +86,8 @@ Predict(r, p, q, pst) ==
        LET C  == {x \in p.ids : p.lv[x] = "absent" /\ q.lv[x] = "live"}
            s1 == [p EXCEPT !.lv = [x \in p.ids |-> IF x \in C THEN "live" ELSE @[x]],
                            !.ref = [x \in p.ids |-> IF x \in C THEN q.ref[x] ELSE @[x]]]
-       IN  IF \A x \in C : \A at \in A0 \ {"dynmember"} : \A v \in s1.ref[x][at] : LvOf(s1, v) = "live"
-           THEN [st |-> s1, res |-> "ok"] ELSE [st |-> p, res |-> "err"]
+           new == UNION {UNION {s1.ref[x][at] : at \in A0 \ {"dynmember"}} : x \in C}
+       IN  IF NewOk(s1, new) THEN [st |-> s1, res |-> "ok"] ELSE [st |-> p, res |-> "err"]
   ELSE [st |-> p, res |-> "ok"]
 
 LineL2(r, pst0) ==
@@ -89,10 +101,11 @@ LineL2(r, pst0) ==
       ELSE IF r.res = "ok" THEN m.res = "ok" /\ Same(m.st, q, J)
       ELSE Same(p, q, J)      \* a refused operation leaves the references alone (other layers may refuse more)
 
-Init == l = 1
-Next == l <= Len(Rec) /\ l' = l + 1
-Spec == Init /\ [][Next]_l
 Prev == IF l > 1 THEN Rec[l - 1].st ELSE Rec[l].st
+Init == l = 1 /\ seen = {}
+Next == /\ l <= Len(Rec) /\ l' = l + 1
+        /\ seen' = ((IF Starts(Rec[l]) THEN {} ELSE seen) \cup DanglingObs(Rec[l].st)) \cap Latent(Rec[l].st)
+Spec == Init /\ [][Next]_<<l, seen>>
 Judge == l <= Len(Rec) =>
   /\ (LineL1(Rec[l]) \/ PrintT(<<"L1FAIL", "C16", l, Sig(Rec[l], Prev)>>))
   /\ (LineL2(Rec[l], Prev) \/ PrintT(<<"L2DRIFT", "C16", l>>))
